@@ -308,6 +308,12 @@ pub fn build_flat(fam: Family, cont: Cont, k: &[NodeId], plain: bool, unit: bool
         #[cfg(not(feature = "cfg-nostd"))]
         (Family::Chain, Cont::Vec) => StreamRoot::new(Chain::chain(k.iter().map(|&i| st(i)).collect::<Vec<_>>())),
         // ---------------- wait_until: k = [inner, deadline]
+        (Family::WaitUntilF, _) if k.len() == 3 => {
+            FutRoot::new(f(k[0]).wait_until(SimFut::<()>::new(k[1])).wait_until(SimFut::<()>::new(k[2])))
+        }
+        (Family::WaitUntilS, _) if k.len() == 3 => {
+            StreamRoot::new(st(k[0]).wait_until(SimFut::<()>::new(k[1])).wait_until(SimFut::<()>::new(k[2])))
+        }
         (Family::WaitUntilF, _) => FutRoot::new(f(k[0]).wait_until(SimFut::<()>::new(k[1]))),
         (Family::WaitUntilS, _) => StreamRoot::new(st(k[0]).wait_until(SimFut::<()>::new(k[1]))),
         (fam, cont) => panic!("harness: no builder for {:?} x {:?} (n={})", fam, cont, n),
